@@ -28,19 +28,29 @@ type Rep struct {
 }
 
 type World struct {
-	mu       sync.Mutex
-	Calls    []string          // "addr:method" in call order since ResetLog
-	Closed   []string          // addresses whose backend got Close()
-	Stops    []string          // addresses whose backend got StopMonitoring()
-	Signals  []string          // "addr:action[:fail]"
-	Script   map[string]string // "addr:method" -> "err" | "zero" ; absent = ok
-	Reps     map[string]*Rep
-	Backends map[string]*Backend // latest backend created per address
-	NoCreate map[string]bool     // Factory.Create fails for addr
-	NoSignal map[string]bool     // SignalToAdd fails for short addr
-	Dead     map[string]bool     // VerifyReplicaAlive false for short addr
-	servers  []*http.Server
-	FrontUp  bool
+	mu          sync.Mutex
+	NextID      int
+	Answers     []string          // per-request log of environment answers (chains, set-checkpoint results, reads, http)
+	Calls       []string          // "addr:method" in call order since ResetLog
+	Closed      []string          // addresses whose backend got Close()
+	Stops       []string          // addresses whose backend got StopMonitoring()
+	Signals     []string          // "addr:action[:fail]"
+	Script      map[string]string // "addr:method" -> "err" | "zero" ; absent = ok
+	Reps        map[string]*Rep
+	Backends    map[string]*Backend // latest backend created per address
+	NoCreate    map[string]bool     // Factory.Create fails for addr
+	NoSignal    map[string]bool     // SignalToAdd fails for short addr
+	Dead        map[string]bool     // VerifyReplicaAlive false for short addr
+	servers     []*http.Server
+	idCalls     []string
+	All         []*Backend
+	closedIDs   []int
+	ModeFail    map[string][2]bool // addr -> {first SetReplicaMode call fails, second fails}
+	modeCalls   map[string]int
+	NewSnapFail map[string]bool // Snapshot on the backend of addr that is not yet attached fails
+	RevFail     map[string]bool
+	AttachedIDs map[int]bool
+	FrontUp     bool
 }
 
 func NewWorld() *World {
@@ -57,7 +67,8 @@ func (w *World) log(addr, m string) string {
 
 func (w *World) ResetLog() {
 	w.mu.Lock()
-	w.Calls, w.Signals = nil, nil
+	w.Calls, w.Signals, w.Answers, w.idCalls = nil, nil, nil, nil
+	w.modeCalls = nil
 	w.mu.Unlock()
 }
 
@@ -86,7 +97,30 @@ func (w *World) rep(addr string) *Rep {
 type Backend struct {
 	w    *World
 	Addr string
+	ID   int
 	Mon  types.MonitorChannel
+}
+
+func (w *World) answer(s string) {
+	w.mu.Lock()
+	w.Answers = append(w.Answers, s)
+	w.mu.Unlock()
+}
+
+// IDCalls returns "id:Method" for the logged calls of the mutating / I/O methods.
+func (w *World) IDCalls() []string {
+	w.mu.Lock()
+	defer w.mu.Unlock()
+	out := append([]string{}, w.idCalls...)
+	sort.Strings(out)
+	return out
+}
+
+func (b *Backend) note(m string) string {
+	b.w.mu.Lock()
+	b.w.idCalls = append(b.w.idCalls, fmt.Sprintf("%d:%s", b.ID, m))
+	b.w.mu.Unlock()
+	return b.w.log(b.Addr, m)
 }
 
 func fail(s string) error {
@@ -97,7 +131,7 @@ func fail(s string) error {
 }
 
 func (b *Backend) WriteAt(p []byte, off int64) (int, error) {
-	s := b.w.log(b.Addr, "WriteAt")
+	s := b.note("WriteAt")
 	if s == "err" {
 		return 0, fail(s)
 	}
@@ -113,39 +147,47 @@ func (b *Backend) WriteAt(p []byte, off int64) (int, error) {
 	return len(p), nil
 }
 func (b *Backend) ReadAt(p []byte, off int64) (int, error) {
-	s := b.w.log(b.Addr, "ReadAt")
+	s := b.note("ReadAt")
 	if s == "err" {
+		b.w.answer("read:" + b.Addr + "=f")
 		return 0, fail(s)
 	}
+	b.w.answer("read:" + b.Addr + "=o")
 	for i := range p {
 		p[i] = b.Addr[len(b.Addr)-6] // marks who served it
 	}
 	return len(p), nil
 }
 func (b *Backend) Close() error {
-	b.w.log(b.Addr, "Close")
+	b.note("Close")
 	b.w.mu.Lock()
 	b.w.Closed = append(b.w.Closed, b.Addr)
+	b.w.closedIDs = append(b.w.closedIDs, b.ID)
 	b.w.mu.Unlock()
 	b.StopMonitoring()
 	return nil
 }
 func (b *Backend) Sync() (int, error) {
-	s := b.w.log(b.Addr, "Sync")
+	s := b.note("Sync")
 	if s == "err" {
 		return -1, fail(s)
 	}
 	return 0, nil
 }
 func (b *Backend) Unmap(o, l int64) (int, error) {
-	s := b.w.log(b.Addr, "Unmap")
+	s := b.note("Unmap")
 	if s == "err" {
 		return -1, fail(s)
 	}
 	return 0, nil
 }
 func (b *Backend) Snapshot(name string, user bool, created string) error {
-	s := b.w.log(b.Addr, "Snapshot")
+	s := b.note("Snapshot")
+	b.w.mu.Lock()
+	if b.w.NewSnapFail[b.Addr] && b.w.Backends[b.Addr] == b && !b.attached() {
+		s = "err"
+	}
+	b.w.mu.Unlock()
 	if s == "err" {
 		return fail(s)
 	}
@@ -159,16 +201,20 @@ func (b *Backend) Snapshot(name string, user bool, created string) error {
 func (b *Backend) GetReplicaChain() ([]string, error) {
 	s := b.w.log(b.Addr, "GetReplicaChain")
 	if s == "err" {
+		b.w.answer("chain:" + b.Addr + "=!")
 		return nil, fail(s)
 	}
 	r := b.w.rep(b.Addr)
 	b.w.mu.Lock()
-	defer b.w.mu.Unlock()
-	return append([]string{}, r.Chain...), nil
+	ch := append([]string{}, r.Chain...)
+	b.w.mu.Unlock()
+	b.w.answer("chain:" + b.Addr + "=" + EncChain(ch))
+	return ch, nil
 }
 func (b *Backend) SetCheckpoint(n string) error {
-	s := b.w.log(b.Addr, "SetCheckpoint")
+	s := b.note("SetCheckpoint")
 	if s == "err" {
+		b.w.answer("setck:" + b.Addr + "=fail")
 		return fail(s)
 	}
 	r := b.w.rep(b.Addr)
@@ -177,7 +223,7 @@ func (b *Backend) SetCheckpoint(n string) error {
 	b.w.mu.Unlock()
 	return nil
 }
-func (b *Backend) Resize(name, size string) error { return fail(b.w.log(b.Addr, "Resize")) }
+func (b *Backend) Resize(name, size string) error { return fail(b.note("Resize")) }
 func (b *Backend) Size() (int64, error) {
 	s := b.w.log(b.Addr, "Size")
 	if s == "err" {
@@ -222,7 +268,18 @@ func (b *Backend) GetCloneStatus() (string, error) {
 }
 func (b *Backend) GetVolUsage() (types.VolUsage, error) { return types.VolUsage{}, nil }
 func (b *Backend) SetReplicaMode(m types.Mode) error {
-	s := b.w.log(b.Addr, "SetReplicaMode")
+	s := b.note("SetReplicaMode")
+	b.w.mu.Lock()
+	if b.w.modeCalls == nil {
+		b.w.modeCalls = map[string]int{}
+	}
+	n := b.w.modeCalls[b.Addr]
+	b.w.modeCalls[b.Addr] = n + 1
+	mf, has := b.w.ModeFail[b.Addr]
+	b.w.mu.Unlock()
+	if has && n < 2 && mf[n] {
+		s = "err"
+	}
 	if s == "err" {
 		return fail(s)
 	}
@@ -233,7 +290,10 @@ func (b *Backend) SetReplicaMode(m types.Mode) error {
 	return nil
 }
 func (b *Backend) SetRevisionCounter(c int64) error {
-	s := b.w.log(b.Addr, "SetRevisionCounter")
+	s := b.note(fmt.Sprintf("SetRevisionCounter %d", c))
+	if b.w.RevFail[b.Addr] {
+		s = "err"
+	}
 	if s == "err" {
 		return fail(s)
 	}
@@ -260,9 +320,11 @@ func (f *Factory) Create(address string) (types.Backend, error) {
 	if f.W.NoCreate[address] {
 		return nil, fmt.Errorf("scripted create failure")
 	}
-	b := &Backend{w: f.W, Addr: address, Mon: make(types.MonitorChannel, 5)}
 	f.W.mu.Lock()
+	b := &Backend{w: f.W, Addr: address, ID: f.W.NextID, Mon: make(types.MonitorChannel, 5)}
+	f.W.NextID++
 	f.W.Backends[address] = b
+	f.W.All = append(f.W.All, b)
 	f.W.mu.Unlock()
 	return b, nil
 }
@@ -302,9 +364,28 @@ func (f *Frontend) Resize(uint64) error { return nil }
 
 // ---- HTTP replica endpoints -------------------------------------------------
 
+var (
+	curMu sync.Mutex
+	cur   *World
+)
+
+// SetWorld selects the world the HTTP endpoints answer from.
+func SetWorld(w *World) {
+	curMu.Lock()
+	cur = w
+	curMu.Unlock()
+}
+
+func world() *World {
+	curMu.Lock()
+	defer curMu.Unlock()
+	return cur
+}
+
 // Serve starts a fake replica control endpoint on host:9502 answering
-// GET /v1/replicas/1 from the scripted state of "tcp://host:9502".
-func (w *World) Serve(host string) error {
+// GET /v1/replicas/1 and POST ?action=revert from the scripted state of "tcp://host:9502"
+// in the current world.
+func Serve(host string) error {
 	addr := "tcp://" + host + ":9502"
 	ln, err := net.Listen("tcp", host+":9502")
 	if err != nil {
@@ -312,12 +393,19 @@ func (w *World) Serve(host string) error {
 	}
 	mux := http.NewServeMux()
 	mux.HandleFunc("/v1/replicas/1", func(rw http.ResponseWriter, rq *http.Request) {
+		w := world()
+		if w == nil {
+			http.Error(rw, "no world", 500)
+			return
+		}
 		s := w.log(addr, "http:"+rq.Method+":"+rq.URL.Query().Get("action"))
 		if s == "err" {
+			w.answer(fmt.Sprintf("httpfail:%s", addr))
 			http.Error(rw, "scripted", 500)
 			return
 		}
 		r := w.rep(addr)
+		w.answer(fmt.Sprintf("http:%s", addr))
 		w.mu.Lock()
 		out := map[string]interface{}{
 			"type": "replica", "id": "1",
@@ -332,17 +420,40 @@ func (w *World) Serve(host string) error {
 		json.NewEncoder(rw).Encode(out)
 	})
 	srv := &http.Server{Handler: mux}
-	w.servers = append(w.servers, srv)
 	go srv.Serve(ln)
 	return nil
 }
 
-func (w *World) Shutdown() {
-	for _, s := range w.servers {
-		s.Close()
+func (w *World) Shutdown() {}
+
+// EncChain renders a chain for the line protocol ("-" = empty).
+func EncChain(ch []string) string {
+	if len(ch) == 0 {
+		return "-"
 	}
+	return strings.Join(ch, "+")
 }
 
 func Short(addr string) string {
 	return strings.TrimSuffix(strings.TrimPrefix(addr, "tcp://"), ":9502")
+}
+
+// attached: whether the controller already fans I/O out to this backend (set by the harness
+// through Attached; a backend created by AddReplica is not attached while it takes its snapshot).
+func (b *Backend) attached() bool { return b.w.AttachedIDs[b.ID] }
+
+// ClosedIDs returns the ids of the backends that received Close().
+func (w *World) ClosedIDs() []int {
+	w.mu.Lock()
+	defer w.mu.Unlock()
+	var out []int
+	for _, b := range w.All {
+		for _, a := range w.closedIDs {
+			if a == b.ID {
+				out = append(out, b.ID)
+				break
+			}
+		}
+	}
+	return out
 }
